@@ -146,6 +146,92 @@ static std::vector<TDef> thdm_defects() {
    return d;
 }
 
+// Tree-level squared masses of the general CP-conserving 2HDM in the generic basis (Gunion, Haber, hep-ph/0207010, eqs. (D3)-(D9) style),
+// written here independently of the library's mass matrices: the oracle for "this gauge-basis input is tachyonic".
+struct TreeM2 { double h, H, A, Hp, scale; };
+static TreeM2 thdm_tree_m2(const Eigen::Matrix<double, 7, 1>& l, double tb, double m122, double v2) {
+   const double b = std::atan(tb), sb = std::sin(b), cb = std::cos(b);
+   TreeM2 t;
+   t.A = m122 / (sb * cb) - 0.5 * v2 * (2 * l(4) + l(5) / tb + l(6) * tb);
+   t.Hp = t.A + 0.5 * v2 * (l(4) - l(3));
+   const double m11 = t.A * sb * sb + v2 * (l(0) * cb * cb + 2 * l(5) * sb * cb + l(4) * sb * sb);
+   const double m22 = t.A * cb * cb + v2 * (l(1) * sb * sb + 2 * l(6) * sb * cb + l(4) * cb * cb);
+   const double m12 = -t.A * sb * cb + v2 * ((l(2) + l(3)) * sb * cb + l(5) * cb * cb + l(6) * sb * sb);
+   const double tr = m11 + m22, disc = std::sqrt((m11 - m22) * (m11 - m22) + 4 * m12 * m12);
+   t.h = 0.5 * (tr - disc); t.H = 0.5 * (tr + disc);
+   t.scale = std::fabs(m122) * (tb + 1 / tb) + v2 * (l.cwiseAbs().sum()) * (1 + tb + 1 / tb);
+   return t;
+}
+
+static void thdm_tachyon_case(vh::Rng& r, gen::CerrCapture& cap) {
+   thdm::Gauge_basis g; g.yukawa_type = static_cast<thdm::Yukawa_type>(1 + r.range(4));
+   const double lam = r.chance(0.5) ? 4.0 : 0.5;
+   for (int k = 0; k < 5; ++k) g.lambda(k) = r.U(-lam, lam);
+   const bool l67 = r.chance(0.3); g.lambda(5) = l67 ? r.U(-1, 1) : 0; g.lambda(6) = l67 ? r.U(-1, 1) : 0;
+   g.tan_beta = r.LU(0.3, 50); g.m122 = r.chance(0.2) ? 0.0 : r.sign() * r.LU(1, 1e6);
+   if (r.chance(0.4)) { g.lambda(0) = std::fabs(g.lambda(0)); g.lambda(1) = std::fabs(g.lambda(1)); g.m122 = std::fabs(g.m122); }   // more near-valid points: tachyons in one sector only, and valid ones
+   SM sm;
+   double v2;
+   { gen::ThdmOpts op; thdm::Mass_basis b = gen::rand_mass_basis(r, op); b.mh = 125; b.mH = 400; b.mA = 400; b.mHp = 400; b.sin_beta_minus_alpha = 1; b.lambda_6 = b.lambda_7 = 0; b.m122 = 1e4; b.tan_beta = 3; b.yukawa_type = thdm::Yukawa_type::type_1; THDM ref(b, sm); v2 = ref.get_v_sqr(); }
+   const TreeM2 t = thdm_tree_m2(g.lambda, g.tan_beta, g.m122, v2);
+   const double tau = 1e-9 * t.scale;
+   const double mn = std::min({t.h, t.H, t.A, t.Hp});
+   if (std::fabs(t.h) < tau || std::fabs(t.H) < tau || std::fabs(t.A) < tau || std::fabs(t.Hp) < tau) { ++out->inconclusive; out->count("THDM tachyon oracle: a squared mass within 1e-9 of zero (undecided)"); return; }
+   ++out->conclusive;
+   const bool tach = mn < 0;
+   std::string kind;
+   if (!tach) kind = "valid";
+   else {
+      if (t.h < 0) kind += (t.H < 0 ? "h,H" : (std::fabs(t.h) > t.H ? "h(|mh^2|>mH^2)" : "h(|mh^2|<mH^2)"));
+      if (t.A < 0) kind += std::string(kind.empty() ? "" : ",") + "A";
+      if (t.Hp < 0) kind += std::string(kind.empty() ? "" : ",") + "H+";
+   }
+   for (int force = 0; force < 2; ++force) {
+      thdm::Config cfg; cfg.force_output = force; cfg.running_couplings = r.chance(0.5);
+      J c; c.i("yukawa_type", static_cast<int>(g.yukawa_type)).d("tan_beta", g.tan_beta).d("m122", g.m122).i("force", force).str("kind", kind).str("model", "THDM").str("basis", "gauge")
+          .d("mh2_tree", t.h).d("mH2_tree", t.H).d("mA2_tree", t.A).d("mHp2_tree", t.Hp);
+      for (int k = 0; k < 7; ++k) c.d("lambda" + std::to_string(k + 1), g.lambda(k));
+      Outcome o; cap.take();
+      double lib[4] = {0, 0, 0, 0};
+      try {
+         THDM m(g, sm, cfg);
+         o.have_problem = m.get_problems().have_problem(); o.have_warning = m.get_problems().have_warning();
+         lib[0] = m.get_Mhh(0); lib[1] = m.get_Mhh(1); lib[2] = m.get_MAh(1); lib[3] = m.get_MHm(1);
+         o.amu = calculate_amu_1loop(m) + calculate_amu_2loop(m); o.computed = true;
+      } catch (const std::exception& e) { o.cls = cls_of(e); o.msg = e.what(); }
+      o.cerr_text = cap.take();
+      c.str("exception", o.cls).str("message", o.msg).i("have_problem", o.have_problem).str("stderr", o.cerr_text.substr(0, 300)).d("amu", o.amu);
+      if (!tach) {
+         // not part of the property: only used to validate the oracle against the library on valid points
+         if (o.computed) {
+            const double e = std::max({std::fabs(lib[0] * lib[0] - t.h), std::fabs(lib[1] * lib[1] - t.H), std::fabs(lib[2] * lib[2] - t.A), std::fabs(lib[3] * lib[3] - t.Hp)}) / t.scale;
+            out->cell("THDM|C++|gauge-basis-valid|oracle-agrees-with-spectrum", e < 1e-10 ? 0 : 1, &c);
+            if (!(e < 1e-10)) out->fail("C16:THDM:tachyon-oracle-disagrees-with-spectrum", "independent tree-level squared masses differ from the model's by " + std::to_string(e) + " of the scale", c);
+         } else out->count("THDM valid gauge-basis point refused (" + o.cls + ")");
+         continue;
+      }
+      bool ok; std::string what;
+      if (!force) { ok = !o.computed && o.cls == "EPhysicalProblem"; what = o.computed ? "tachyonic spectrum computed silently without force-output" : "wrong error class " + o.cls; }
+      else { ok = o.computed && (o.have_problem || o.have_warning || !o.cerr_text.empty()); what = !o.computed ? "refused although force-output is set (" + o.cls + ": " + o.msg + ")" : "tachyonic spectrum: proceeded without any warning or problem"; }
+      out->cell("THDM|C++|tachyon:" + kind + "|force" + std::to_string(force), ok ? 0 : 1, &c);
+      if (!ok) out->fail("C16:THDM:C++:" + std::string(force ? "force:" : "noforce:") + "tachyon:" + kind, kind + " tachyon force=" + std::to_string(force) + ": " + what, c);
+      if (o.computed && !o.have_problem && !o.have_warning && o.cerr_text.empty() && !std::isfinite(o.amu)) out->fail("C16:THDM:silent-nonfinite-result", "tachyon " + kind + ": non-finite a_mu without error, problem or warning", c);
+      // C API, gauge basis
+      gm2calc_THDM_gauge_basis cb; std::memset(&cb, 0, sizeof cb);
+      cb.yukawa_type = static_cast<gm2calc_THDM_yukawa_type>(static_cast<int>(g.yukawa_type)); for (int k = 0; k < 7; ++k) cb.lambda[k] = g.lambda(k); cb.tan_beta = g.tan_beta; cb.m122 = g.m122;
+      gm2calc_SM csm; gm2calc_sm_set_to_default(&csm);
+      gm2calc_THDM_config ccfg; gm2calc_thdm_config_set_to_default(&ccfg); ccfg.force_output = force; ccfg.running_couplings = cfg.running_couplings;
+      gm2calc_THDM* h = nullptr;
+      const gm2calc_error e = gm2calc_thdm_new_with_gauge_basis(&h, &cb, &csm, &ccfg);
+      const bool cok = force ? (e == gm2calc_NoError && h) : (e == gm2calc_PhysicalProblem && !h);
+      J cc = c; cc.i("c_error", static_cast<int>(e));
+      out->cell("THDM|C|tachyon:" + kind + "|force" + std::to_string(force), cok ? 0 : 1, &cc);
+      if (!cok) out->fail("C16:THDM:C:" + std::string(force ? "force:" : "noforce:") + "tachyon:" + kind, kind + " tachyon through gm2calc_thdm_new_with_gauge_basis, force=" + std::to_string(force) + ": error code " + std::to_string(static_cast<int>(e)) + (h ? ", handle returned" : ", no handle"), cc);
+      if (h) gm2calc_thdm_free(h);
+      cap.take();
+   }
+}
+
 static void thdm_case(vh::Rng& r, gen::CerrCapture& cap) {
    static const std::vector<TDef> defs = thdm_defects();
    gen::ThdmOpts op; op.mlo = 60; op.mhi = 2000; op.tblo = 0.5; op.tbhi = 40;
@@ -216,7 +302,7 @@ int main(int argc, char** argv) {
       o.cur = i;
       vh::Rng r(a.seed, a.worker, i);
       ++o.evaluations;
-      if (i % 2 == 0) mssm_case(r, cap); else thdm_case(r, cap);
+      if (i % 2 == 0) mssm_case(r, cap); else if (i % 4 == 1) thdm_case(r, cap); else thdm_tachyon_case(r, cap);
    }
    o.finish();
    return 0;
